@@ -38,6 +38,15 @@ type Term struct {
 	// solver bookkeeping
 	emitLevel int // -1 = not emitted to the solver
 	emitGen   int
+	defn      *varDefn // for "var": defining constraint asserted when first referenced
+}
+
+// varDefn is a constraint that defines a group of auxiliary variables as a total
+// function of other terms (e.g. decimal digits of a value). It is satisfiable for every
+// value of those terms, so it only needs to be asserted in queries that mention one of
+// the variables.
+type varDefn struct {
+	cons *Term
 }
 
 var termCounter int
@@ -349,6 +358,13 @@ func bvBin(op string, a, b *Term) *Term {
 		}
 		if a == b {
 			return mkBV(int(w), 0)
+		}
+		// (x + c1) - c2  =>  x + (c1 - c2)
+		if b.isConst() && a.op == "bvadd" && a.args[1].isConst() {
+			return bvBin("bvadd", a.args[0], mkBV(int(w), a.args[1].cv-b.cv))
+		}
+		if b.isConst() && a.op == "bvadd" && a.args[0].isConst() {
+			return bvBin("bvadd", a.args[1], mkBV(int(w), a.args[0].cv-b.cv))
 		}
 	case "bvmul":
 		if a.isConst() && a.cv == 1 {
